@@ -142,6 +142,7 @@ type side struct {
 	errKind   string // "", "mismatch", "timeout", "error"
 	rPeer     peer.ID
 	rKey      crypto.PubKey
+	gotEarly  []string          // early data the handler received during THIS handshake
 	peerCert  *x509.Certificate // TLS: the certificate this side received from its peer
 	wrote     bool
 	dataOK    bool // the first Read returned exactly what the partner wrote
@@ -188,6 +189,10 @@ func (s *side) run() {
 		sc, err = s.st.SecureInbound(ctx, nc, s.expectID)
 	}
 	wd.Stop()
+	if s.edh != nil {
+		// snapshot: in the reuse kind the handler object belongs to the transport and serves the next handshake too
+		s.gotEarly = append([]string(nil), s.edh.got...)
+	}
 	if err != nil {
 		s.errKind = classify(err)
 		if s.timedOut {
@@ -278,33 +283,41 @@ type session struct {
 }
 
 type pipeEnv struct {
-	o    *common.Outcome
-	n    *simnet.Net
-	wg   *simsync.WaitGroup
-	seq  int
-	tpts map[string]sec.SecureTransport
+	o     *common.Outcome
+	n     *simnet.Net
+	wg    *simsync.WaitGroup
+	seq   int
+	reuse bool
+	tpts  map[string]cachedTransport
 }
 
 // transportFor returns the party's security transport. Within a run a process (identity + options) has
 // ONE transport object, as in a real node: concurrent and successive sessions of the same party share
-// it, so state that leaks from one handshake into another shows up as a wrong identity. Parties with an
-// early-data handler get a transport of their own (the handler records what this one session received).
+// it, so state that leaks from one handshake into another shows up as a wrong identity or an ignored
+// expectation. Parties with an early-data handler get a transport of their own (the handler records what
+// this one session received) — except in the "reuse" kind, where one SessionTransport with its handler
+// serves a sequence of handshakes and the record is cleared between them.
 func (e *pipeEnv) transportFor(p party) (sec.SecureTransport, *edh, error) {
-	if p.early != "" {
+	if p.early != "" && !e.reuse {
 		return p.transport()
 	}
-	key := fmt.Sprintf("%s|%v|%v|%q|%v", p.id, p.tls, p.session, p.prologue, p.noCheck)
+	key := fmt.Sprintf("%s|%v|%v|%q|%v|%q", p.id, p.tls, p.session, p.prologue, p.noCheck, p.early)
 	if t, ok := e.tpts[key]; ok {
-		return t, nil, nil
+		return t.st, t.h, nil
 	}
-	t, _, err := p.transport()
+	t, h, err := p.transport()
 	if err == nil {
 		if e.tpts == nil {
-			e.tpts = map[string]sec.SecureTransport{}
+			e.tpts = map[string]cachedTransport{}
 		}
-		e.tpts[key] = t
+		e.tpts[key] = cachedTransport{t, h}
 	}
-	return t, nil, err
+	return t, h, err
+}
+
+type cachedTransport struct {
+	st sec.SecureTransport
+	h  *edh
 }
 
 // lastIdx is the index of the last handshake frame a receiver reads in a direction: what arrives
@@ -431,13 +444,13 @@ func judgeEarly(o *common.Outcome, s *side, what string) {
 	}
 	want := s.partner.p.early
 	if want == "" {
-		if len(s.edh.got) > 0 {
-			o.Violate("C01/early-data-forged/"+roleName(s.init), "%s: %s received early data %q, its partner sent none", what, s.role, s.edh.got)
+		if len(s.gotEarly) > 0 {
+			o.Violate("C01/early-data-forged/"+roleName(s.init), "%s: %s received early data %q, its partner sent none", what, s.role, s.gotEarly)
 		}
 		return
 	}
-	if len(s.edh.got) != 1 || s.edh.got[0] != want {
-		o.Violate("C01/early-data-altered/"+roleName(s.init), "%s: %s completed with early data %q, its partner sent %q", what, s.role, s.edh.got, want)
+	if len(s.gotEarly) != 1 || s.gotEarly[0] != want {
+		o.Violate("C01/early-data-altered/"+roleName(s.init), "%s: %s completed with early data %q, its partner sent %q", what, s.role, s.gotEarly, want)
 	}
 }
 
